@@ -339,6 +339,14 @@ func (o Bool) Equal(right Object) bool {
 	if v, ok := right.(Uint); ok {
 		return bool((o && v == 1) || (!o && v == 0))
 	}
+
+	if v, ok := right.(Float); ok {
+		return bool((o && v == 1) || (!o && v == 0))
+	}
+
+	if v, ok := right.(Char); ok {
+		return bool((o && v == 1) || (!o && v == 0))
+	}
 	return false
 }
 
@@ -1193,7 +1201,13 @@ func (o Map) IndexGet(index Object) (Object, error) {
 func (o Map) Equal(right Object) bool {
 	v, ok := right.(Map)
 	if !ok {
-		return false
+		sm, ok := right.(*SyncMap)
+		if !ok || sm == nil {
+			return false
+		}
+		sm.mu.RLock()
+		defer sm.mu.RUnlock()
+		v = sm.Value
 	}
 
 	if len(o) != len(v) {
@@ -1344,6 +1358,10 @@ func (o *SyncMap) Equal(right Object) bool {
 	o.mu.RLock()
 	defer o.mu.RUnlock()
 
+	if v, ok := right.(*SyncMap); ok && v == o {
+		// do not take the same read lock twice
+		return o.Value.Equal(o.Value)
+	}
 	return o.Value.Equal(right)
 }
 
@@ -1455,6 +1473,9 @@ func (o *Error) Error() string {
 func (o *Error) Equal(right Object) bool {
 	if v, ok := right.(*Error); ok {
 		return v == o
+	}
+	if v, ok := right.(*RuntimeError); ok {
+		return v != nil && v.Err == o
 	}
 	return false
 }
@@ -1590,6 +1611,9 @@ func (o *RuntimeError) Error() string {
 // Equal implements Object interface.
 func (o *RuntimeError) Equal(right Object) bool {
 	if o.Err != nil {
+		if v, ok := right.(*RuntimeError); ok {
+			return v != nil && v.Err == o.Err
+		}
 		return o.Err.Equal(right)
 	}
 	return false
